@@ -12,13 +12,81 @@ EXPLANATION = (
     "recurse into each of the five child kinds exactly once; the collector inserts digest(self) into the path set before the "
     "membership test, extends the result with that same path set on the membership edge, and hands the extended path set to every "
     "child. C12.4: contains_all = is_empty(remove_all_found(self, clone(target))); the remover removes digest(self) from the target "
-    "set. Minimal disclosure then follows from C03 applied twice. Does not decide set semantics of std HashSet.")
+    "set. C12.5 minimal disclosure: elide_revealing_set / elide_removing_set are elide_set_with_action(self, t, true/false, Elide), "
+    "and that descent's decision table (obscure iff membership != revealing), Elide arm (= Elided(digest(self))), elide primitive and "
+    "same-case rebuild over all five child kinds are re-evaluated here (the C03 instances). C12.6: the single-target entry points "
+    "are the set versions over {digest(target)}, and every recursive search reachable from a proof entry point enters all five "
+    "child kinds. Does not decide set semantics of std HashSet.")
 TRUSTED = ['HashSet::{contains,insert,remove,is_subset,is_empty,extend} have their std semantics']
-FLOORS = {'C12.1': 2, 'C12.2': 2, 'C12.3': 11, 'C12.4': 1}
+FLOORS = {'C12.1': 2, 'C12.2': 2, 'C12.3': 11, 'C12.4': 1, 'C12.5': 8, 'C12.6': 4}
 P1, P2, P3, P4 = ('param', 1), ('param', 2), ('param', 3), ('param', 4)
 
 
 def check(ctx):
+    _check_core(ctx)
+    F = ctx.F
+    pcs = F.method1('Envelope', 'proof_contains_set')
+    ccs = F.method1('Envelope', 'confirm_contains_set')
+    # ---- C12.6 the single-target entry points are the set versions over the one-element set {digest(target)}
+    def singleton(S):
+        S = strip_sites(S)
+        ds = [x for x in walk(S) if isinstance(x, tuple) and x and x[0] == 'call' and m_digest(x) is not None and strip_sites(m_digest(x)) == P2]
+        others = [x for x in walk(S) if isinstance(x, tuple) and x and x[0] == 'param' and x != P2]
+        return bool(ds) and not others
+    for name, setfn, rest in (('proof_contains_target', pcs, ()), ('confirm_contains_target', ccs, (P3,))):
+        b = F.method1('Envelope', name)
+        if b is None or setfn is None:
+            ctx.lost('C12.6', 'Envelope::' + name)
+            continue
+        tb = TermBuilder(F, b)
+        for bi, si, t in ret_defs(tb):
+            v = strip_sites(detry(t))
+            c = callee_of(v) if v[0] == 'call' else None
+            if c is not None and c.best_hash == setfn.hash and len(v[2]) == 2 + len(rest) and strip_sites(v[2][0]) == P1 and singleton(v[2][1]) \
+                    and tuple(strip_sites(x) for x in v[2][2:]) == rest:
+                ctx.ok('C12.6', ctx.site(b, bi, si), '%s = %s(self, {digest(target)}%s): judged there' % (name, setfn.name, ', proof' if rest else ''), sample=fmt(v))
+            else:
+                ctx.fail('C12.6', ctx.site(b, bi, si), '%s is not %s over the one-element set {digest(target)} (its own search / test is not one the set rules cover): %s'
+                         % (name, setfn.name, fmt(v)), key='C12.6|' + name, rule='FLOW/IDIOM-UNKNOWN')
+    # every recursive search reachable from a proof entry point visits all five child kinds (a kind never entered hides targets there)
+    seen = set()
+    for entry in ('proof_contains_set', 'proof_contains_target', 'confirm_contains_set', 'confirm_contains_target'):
+        e = F.method1('Envelope', entry)
+        for r in (rec.reachable_recursive(F, e) if e is not None else []):
+            if r.hash in seen:
+                continue
+            seen.add(r.hash)
+            cov, other = rec.coverage(rec.recursive_call_sites(F, r))
+            missing = [k for k in rec.CHILD_KINDS if not cov.get(k)]
+            if missing:
+                ctx.fail('C12.6', ctx.site(r), 'recursive search %s (reachable from %s) never enters child kind(s) %s' % (r.name, entry, missing), key='C12.6|cover|' + r.name)
+            else:
+                ctx.ok('C12.6', ctx.site(r), 'recursive search %s enters all five child kinds' % r.name)
+    # ---- C12.5 minimal disclosure: the two elision steps of the proof are the default-action (Elide) descents, whose decision table,
+    # obscure region, elide primitive and rebuild are the C03 instances re-evaluated here
+    from .. import obscure
+    ELIDE = ('agg', 'bc_envelope::base::elide::ObscureAction', 'Elide', (), ())
+    for name, flag in (('elide_revealing_set', True), ('elide_removing_set', False)):
+        b = F.method1('Envelope', name)
+        if b is None:
+            ctx.lost('C12.5', 'Envelope::' + name)
+            continue
+        want = expected_call(F, 'elide_set_with_action', P1, P2, ('bool', flag), ELIDE)
+        rt = TermBuilder(F, b).return_term()
+        if want is not None and same_mod_inline(F, rt, want):
+            ctx.ok('C12.5', ctx.site(b), '%s(self, t) = elide_set_with_action(self, t, %s, Elide)' % (name, str(flag).lower()), sample=fmt(strip_sites(rt)))
+        else:
+            ctx.fail('C12.5', ctx.site(b), '%s is %s, not the default-action descent elide_set_with_action(self, t, %s, Elide)' % (name, fmt(strip_sites(rt)), str(flag).lower()),
+                     key='C12.5|wrapper|' + name)
+    from .C07 import Relabel
+    R = Relabel(ctx, 'C12.5', ['T', 'R', 'P', 'B'])
+    obscure.check_target_table(R, 'T')
+    obscure.check_obscure_region(R, 'R', arms=('Elide',))
+    obscure.check_elide_primitive(R, 'P')
+    obscure.check_rebuild(R, 'B', 'B/kinds')
+
+
+def _check_core(ctx):
     F = ctx.F
     pcs = F.method1('Envelope', 'proof_contains_set')
     ccs = F.method1('Envelope', 'confirm_contains_set')
